@@ -3,8 +3,10 @@
    in-edges, otherwise the first strict improvement over the predecessors (in adjacency order) wins
    and is recorded in maxInNeighbor; among the nodes with in-edges and without out-edges the first
    strictly better one (in topological order) is the sink; `B[sink] == 0` means "no path";
-   back-walk through the recorded predecessors.  No sink at all -> the code evaluates B[None]
-   (KeyError) = [MBNoSink].
+   back-walk through the recorded predecessors.  No sink candidate at all (no node with an in-edge
+   and without out-edges, e.g. a graph without edges): the code as it is now (/repo 6d36e70) returns
+   (None, None) = [MBNoPath]; before that fix it evaluated B[None] (KeyError) = [MBNoSink].  The switch
+   [keyerr] selects the old behaviour (true) or the current one (false = [code_nosink_keyerror]).
    Inputs that come from networkx and are not derivable from the edge list: the topological order
    and the predecessor order of every node (successors matter only through emptiness).
    Proofs: PeelProofs1-3.v *)
@@ -24,11 +26,11 @@ Definition sub (f : edge -> Z) (b : Z) (p : list node) : edge -> Z :=
   fun e => f e - b * ind1 (memE e (pairs p)).
 Definition npos (G : list edge) (f : edge -> Z) : nat := length (filter (fun e => 0 <? f e) G).
 
-Inductive outcome := MBPath (b : Z) (p : list node) | MBNoPath | MBNoSink.
+Inductive mb_outcome := MBPath (b : Z) (p : list node) | MBNoPath | MBNoSink.
 Inductive peel_result := PeelOK (D : list (list node * Z)) | PeelKeyError | PeelOutOfFuel.
 
 Section PeelLoop.
-  Variable find : (edge -> Z) -> outcome.
+  Variable find : (edge -> Z) -> mb_outcome.
   (* while True: b, path = max_bottleneck_path(...); if path is None: break; subtract; append *)
   Fixpoint peel (fuel : nat) (f : edge -> Z) : peel_result :=
     match fuel with
@@ -55,7 +57,7 @@ Section DP.
   Definition bmin (b : bval) (z : Z) : Z := match b with None => z | Some y => Z.min y z end.
   Definition zle (z : Z) (b : bval) : Prop := match b with None => True | Some y => z <= y end.
 
-  Record st := { bB : node -> bval; bP : node -> node; bbest : option (node * Z) }.
+  Record mb_state := { bB : node -> bval; bP : node -> node; bbest : option (node * Z) }.
 
   (* for u in predecessors(v): c = min(B[u], f(u,v)); if c > B[v]: B[v] = c; maxInNeighbor[v] = u *)
   Definition pick (Bf : node -> bval) (v : node) (acc : option (Z * node)) (u : node) : option (Z * node) :=
@@ -67,7 +69,7 @@ Section DP.
   Definition best_pred (Bf : node -> bval) (v : node) (ps : list node) : option (Z * node) :=
     fold_left (pick Bf v) ps None.
 
-  Definition dp_step (s : st) (v : node) : st :=
+  Definition dp_step (s : mb_state) (v : node) : mb_state :=
     match preds v with
     | [] => {| bB := upd (bB s) v None; bP := bP s; bbest := bbest s |}
     | ps => match best_pred (bB s) v ps with
@@ -84,7 +86,7 @@ Section DP.
             end
     end.
 
-  Definition dp_init : st := {| bB := fun _ => None; bP := fun x => x; bbest := None |}.
+  Definition dp_init : mb_state := {| bB := fun _ => None; bP := fun x => x; bbest := None |}.
 
   Fixpoint back (fuel : nat) (Pf : node -> node) (v : node) (acc : list node) : list node :=
     match fuel with
@@ -92,28 +94,31 @@ Section DP.
     | S k => match preds v with [] => v :: acc | _ => back k Pf (Pf v) (v :: acc) end
     end.
 
-  Definition max_bottleneck (topo : list node) : outcome :=
+  Definition max_bottleneck (keyerr : bool) (topo : list node) : mb_outcome :=
     let s := fold_left dp_step topo dp_init in
     match bbest s with
-    | None => MBNoSink
+    | None => if keyerr then MBNoSink else MBNoPath      (* "maxBottleneckSink is None or ..." *)
     | Some (v, b) => if b =? 0 then MBNoPath else MBPath b (back (length topo) (bP s) v [])
     end.
 End DP.
 
 (* decompose_using_max_bottleneck: the structure (topo, preds, succs) is that of temp_G and stays the
    same in every round; only the weights change.  Fuel = #positive edges + 1. *)
-Definition decompose (G : list edge) (preds succs : node -> list node) (topo : list node) (f : edge -> Z) : peel_result :=
-  peel (fun g => max_bottleneck g preds succs topo) (S (npos G f)) f.
+Definition decompose (keyerr : bool) (G : list edge) (preds succs : node -> list node) (topo : list node) (f : edge -> Z) : peel_result :=
+  peel (fun g => max_bottleneck g preds succs keyerr topo) (S (npos G f)) f.
+
+(* the code as it is *)
+Definition code_nosink_keyerror : bool := false.
 
 (* executable wrappers: association lists *)
 Definition flow_of (W : list (edge * Z)) : edge -> Z := wt W.
 Definition adj_of (A : list (node * list node)) (v : node) : list node :=
   match find (fun p => (fst p =? v)%N) A with Some p => snd p | None => [] end.
 
-Definition max_bottleneck_run (W : list (edge * Z)) (P S : list (node * list node)) (topo : list node) : outcome :=
-  max_bottleneck (flow_of W) (adj_of P) (adj_of S) topo.
+Definition max_bottleneck_run (W : list (edge * Z)) (P S : list (node * list node)) (topo : list node) : mb_outcome :=
+  max_bottleneck (flow_of W) (adj_of P) (adj_of S) code_nosink_keyerror topo.
 Definition decompose_run (W : list (edge * Z)) (P S : list (node * list node)) (topo : list node) : peel_result :=
-  decompose (map fst W) (adj_of P) (adj_of S) topo (flow_of W).
+  decompose code_nosink_keyerror (map fst W) (adj_of P) (adj_of S) topo (flow_of W).
 
 (* verified checker of the structural inputs (what networkx contributes): G duplicate-free, topo a
    duplicate-free topological order containing every endpoint, the adjacency lists list exactly
